@@ -273,12 +273,17 @@ Definition XP := 0%nat. Definition YP := 1%nat. Definition DV := 2%nat.
 Definition bin_t (p : nat) (v : expr) : iexpr := IClipBin (IAdd (ISearch p v) (-1)) p.
 Definition bin_old_t (p : nat) (v : expr) : iexpr := IAdd (ISearch p v) (-1).   (* before fix 2486bd0 *)
 
+(* the value substituted for out-of-interval inputs ("x_robust"): interval[0] since fix c2cb03d, the literal 0 before *)
+Definition rob_lo (lo : expr) : expr := lo.
+Definition rob_zero (lo : expr) : expr := Const 0.
+
 Section RQS.
   Variable bin : nat -> expr -> iexpr.
+  Variable rob : expr -> expr.
   (* [d] = number of scalars in scope; x_robust / y_robust is bound once (Let1) as [Var d], as in the code *)
   Definition rqs_fwd_gt (d : nat) (lo hi x : expr) : expr :=
     let inb := CAnd (CGe x lo) (CLe x hi) in
-    Let1 (Where inb x (Const 0))
+    Let1 (Where inb x (rob lo))
      (let xr := Var d in
       let k := bin XP xr in
       let xk := Par XP k in let xk1 := Par XP (IAdd k 1) in
@@ -292,7 +297,7 @@ Section RQS.
       Where inb y x).
   Definition rqs_inv_gt (d : nat) (lo hi y : expr) : expr :=
     let inb := CAnd (CGe y lo) (CLe y hi) in
-    Let1 (Where inb y (Const 0))
+    Let1 (Where inb y (rob lo))
      (let yr := Var d in
       let k := bin YP yr in
       let xk := Par XP k in let xk1 := Par XP (IAdd k 1) in
@@ -309,7 +314,7 @@ Section RQS.
       Where inb x y).
   Definition rqs_deriv_gt (d : nat) (lo hi x : expr) : expr :=
     let inb := CAnd (CGe x lo) (CLe x hi) in
-    Let1 (Where inb x (Const 0))
+    Let1 (Where inb x (rob lo))
      (let xr := Var d in
       let k := bin XP xr in
       let xk := Par XP k in let xk1 := Par XP (IAdd k 1) in
@@ -327,16 +332,26 @@ Section RQS.
   Definition rqs_ld_inv_gt (d : nat) (lo hi y : expr) :=
     Let1 (rqs_inv_gt d lo hi y) (rqs_ld_inv_of_gt (S d) lo hi (Var d)).
 End RQS.
-Definition rqs_fwd_t := rqs_fwd_gt bin_t.
-Definition rqs_inv_t := rqs_inv_gt bin_t.
-Definition rqs_deriv_t := rqs_deriv_gt bin_t.
-Definition rqs_ld_fwd_t := rqs_ld_fwd_gt bin_t.
-Definition rqs_ld_inv_t := rqs_ld_inv_gt bin_t.
-Definition rqs_fwd_old_t := rqs_fwd_gt bin_old_t.
-Definition rqs_inv_old_t := rqs_inv_gt bin_old_t.
-Definition rqs_deriv_old_t := rqs_deriv_gt bin_old_t.
-Definition rqs_ld_fwd_old_t := rqs_ld_fwd_gt bin_old_t.
-Definition rqs_ld_inv_old_t := rqs_ld_inv_gt bin_old_t.
+Definition rqs_fwd_t := rqs_fwd_gt bin_t rob_lo.
+Definition rqs_inv_t := rqs_inv_gt bin_t rob_lo.
+Definition rqs_deriv_t := rqs_deriv_gt bin_t rob_lo.
+Definition rqs_ld_fwd_t := rqs_ld_fwd_gt bin_t rob_lo.
+Definition rqs_ld_inv_of_t := rqs_ld_inv_of_gt bin_t rob_lo.
+Definition rqs_ld_inv_t := rqs_ld_inv_gt bin_t rob_lo.
+(* before fix 2486bd0 (D1): bin index not clipped *)
+Definition rqs_fwd_old_t := rqs_fwd_gt bin_old_t rob_lo.
+Definition rqs_inv_old_t := rqs_inv_gt bin_old_t rob_lo.
+Definition rqs_deriv_old_t := rqs_deriv_gt bin_old_t rob_lo.
+Definition rqs_ld_fwd_old_t := rqs_ld_fwd_gt bin_old_t rob_lo.
+Definition rqs_ld_inv_of_old_t := rqs_ld_inv_of_gt bin_old_t rob_lo.
+Definition rqs_ld_inv_old_t := rqs_ld_inv_gt bin_old_t rob_lo.
+(* before fix c2cb03d (D9): out-of-interval inputs replaced by the literal 0 *)
+Definition rqs_fwd_zero_t := rqs_fwd_gt bin_t rob_zero.
+Definition rqs_inv_zero_t := rqs_inv_gt bin_t rob_zero.
+Definition rqs_deriv_zero_t := rqs_deriv_gt bin_t rob_zero.
+Definition rqs_ld_fwd_zero_t := rqs_ld_fwd_gt bin_t rob_zero.
+Definition rqs_ld_inv_of_zero_t := rqs_ld_inv_of_gt bin_t rob_zero.
+Definition rqs_ld_inv_zero_t := rqs_ld_inv_gt bin_t rob_zero.
 
 (* ---- softplus.py, exp.py, affine.py ---- *)
 Definition softplus_fwd_t (x : expr) := Softplus x.
@@ -365,33 +380,33 @@ Definition vLOC := Var 6. Definition vSCALE := Var 7.                        (* 
 Definition vBLOC := Var 8. Definition vBSCALE := Var 9.                      (* Normal(loc, scale) base *)
 Definition nV := 10%nat.   (* number of scalars of that layout = first free let level *)
 
-Inductive leafk := LAffine | LExp | LSoftplus | LTanh | LLeaky | LRqs | LLeakyOld | LRqsOld.
+Inductive leafk := LAffine | LExp | LSoftplus | LTanh | LLeaky | LRqs | LLeakyOld | LRqsOld | LRqsZero.
 
 (* the four methods of a leaf as terms in the input *)
 Definition fwd_t (l : leafk) (x : expr) : expr :=
   match l with
   | LAffine => affine_fwd_t vLOC vSCALE x | LExp => exp_fwd_t x | LSoftplus => softplus_fwd_t x
   | LTanh => tanh_fwd_t x | LLeaky | LLeakyOld => leaky_fwd_t vM vG vIC x
-  | LRqs => rqs_fwd_t nV vLO vHI x | LRqsOld => rqs_fwd_old_t nV vLO vHI x
+  | LRqs => rqs_fwd_t nV vLO vHI x | LRqsOld => rqs_fwd_old_t nV vLO vHI x | LRqsZero => rqs_fwd_zero_t nV vLO vHI x
   end.
 Definition inv_t (l : leafk) (y : expr) : expr :=
   match l with
   | LAffine => affine_inv_t vLOC vSCALE y | LExp => exp_inv_t y | LSoftplus => softplus_inv_t y
   | LTanh => tanh_inv_t y | LLeaky => leaky_inv_t vM vG vIC y | LLeakyOld => leaky_inv_old_t vM vG vIC y
-  | LRqs => rqs_inv_t nV vLO vHI y | LRqsOld => rqs_inv_old_t nV vLO vHI y
+  | LRqs => rqs_inv_t nV vLO vHI y | LRqsOld => rqs_inv_old_t nV vLO vHI y | LRqsZero => rqs_inv_zero_t nV vLO vHI y
   end.
 Definition ld_fwd_t (l : leafk) (x : expr) : expr :=
   match l with
   | LAffine => affine_ld_t vSCALE | LExp => exp_ld_fwd_t x | LSoftplus => softplus_ld_fwd_t x
   | LTanh => tanh_ld_fwd_t nV x | LLeaky | LLeakyOld => leaky_ld_fwd_t nV vM vG x
-  | LRqs => rqs_ld_fwd_t nV vLO vHI x | LRqsOld => rqs_ld_fwd_old_t nV vLO vHI x
+  | LRqs => rqs_ld_fwd_t nV vLO vHI x | LRqsOld => rqs_ld_fwd_old_t nV vLO vHI x | LRqsZero => rqs_ld_fwd_zero_t nV vLO vHI x
   end.
 (* the log-det of inverse_and_log_det as a function of the input y AND the already computed x = inverse(y) *)
 Definition ld_inv_of_t (l : leafk) (d : nat) (y x : expr) : expr :=
   match l with
   | LAffine => Neg (affine_ld_t vSCALE) | LExp => Neg x | LSoftplus => Softplus (Neg x)
   | LTanh => tanh_ld_inv_of_t d x | LLeaky | LLeakyOld => leaky_ld_inv_of_t d vM vG y x
-  | LRqs => rqs_ld_inv_of_gt bin_t d vLO vHI x | LRqsOld => rqs_ld_inv_of_gt bin_old_t d vLO vHI x
+  | LRqs => rqs_ld_inv_of_t d vLO vHI x | LRqsOld => rqs_ld_inv_of_old_t d vLO vHI x | LRqsZero => rqs_ld_inv_of_zero_t d vLO vHI x
   end.
 Definition ld_inv_t (l : leafk) (y : expr) : expr := Let1 (inv_t l y) (ld_inv_of_t l (S nV) y (Var nV)).
 
